@@ -151,15 +151,17 @@ def _refused_stream_calls(ctx: Ctx, model: ExcModel) -> None:
     sites: list[tuple[FunctionInfo, ast.Call]] = []
     # serve_one: error-stream writes that happen once the method (info) is known
     cfg = cfg_of(so.node)
-    info_assign = [n for n in walk_scope(so.node) if isinstance(n, ast.Assign) and any(isinstance(t, ast.Name) and t.id == "info" for t in n.targets)]
-    ia = one(info_assign, "method lookup `info = ...`", so)
+    info_assign = [n for n in walk_scope(so.node) if isinstance(n, ast.Assign) and len(n.targets) == 1 and isinstance(n.targets[0], ast.Name)
+                   and isinstance(n.value, ast.Call) and last_attr(n.value) == "get" and txt(n.value.func).endswith("_methods.get")]
+    ia = one(info_assign, "method lookup `<info> = self._methods.get(...)`", so)
+    info_name = ia.targets[0].id  # type: ignore[union-attr]
     none_edges: set[tuple[int, int]] = set()
     from ..util import is_none_test
 
     for n in walk_scope(so.node):
         if isinstance(n, ast.If):
             t = is_none_test(n.test)
-            if t and isinstance(t[0], ast.Name) and t[0].id == "info":
+            if t and isinstance(t[0], ast.Name) and t[0].id == info_name:
                 none_edges |= cfg.test_edges(n, "T" if t[1] else "F")
     known = cfg.reach(cfg.done(ia), avoid_edges=none_edges, include_start=False)
     for w in calls_named(so, "_write_error_stream"):
